@@ -65,4 +65,16 @@ PROPS = {
             "dedup identity is blake3 equality in the code; the harness uses byte equality (a blake3 collision would show up as an address mismatch)",
         ],
     },
+    "C08": {
+        "theorems": "JubakoModel.Theorems.C08",
+        "harness": "c08",
+        "sig_exclude": "^c16-",
+        "profiles": ["debug"],
+        "rule": "one case = one content pack with many clusters (raw and compressed mixed; fewer, about as many, and more clusters than the back-pressure limit 2 x workers) created while every Progress callback (main thread, each worker, writer) sleeps a seeded duration, for worker counts 1,2,3,5,8,15 (quick) / 1..15 (thorough) set through the CPU affinity of the creating thread; after creation: every address read back, pack check, Progress event history replayed on the model's order constraints, writer completion order compared with the cluster order in the file, Lean layout for that arrival order compared byte for byte; non-trivial = at least one content; distinct = distinct (config, contents) fingerprint",
+        "assumptions": [
+            "the scheduler is an arbitrary interleaving of the atomic actions of Model/Pipeline.lean (channel send/receive, counter update under its mutex, writer step); OS-level blocking, thread start-up and panics inside threads are not modelled",
+            "Progress callbacks are the only perturbation points (no hook in /repo is needed); finer interleavings inside a step are not forced",
+            "wall-clock bound 300 s per pack as the observable for termination",
+        ],
+    },
 }
